@@ -9,7 +9,7 @@ ID = "C12"
 SHARDS = 32
 CASE_TIMEOUT = 15  # seconds per case; a timed-out case is counted as skipped (symbolic blow-up on long feedback runs), never as a verdict
 RULE = (
-    "Hypothesis generates circuits on 1..5 qubits (and, one case in six, purely classical circuits on 10..16 qubits with swap triples on the highest qubits, compared on all 2^n basis states with the reversible simulator): classical sections of 1..8 gates (X/CX/CCX/MCX) between non-classical gates "
+    "Hypothesis generates circuits on 1..5 qubits (and, one case in three, purely classical circuits on 10..16 qubits with swap triples on the highest qubits, compared on all 2^n basis states with the reversible simulator): classical sections of 1..8 gates (X/CX/CCX/MCX) between non-classical gates "
     "(H/Z/S/T/Y/P/CZ/CP/SWAP) and barriers, with boosted shapes (CX-swap triples and other pure permutations, sections cancelling to "
     "identity, computing into an occupied qubit, repeated gates); circuit_boolean_optimizer (no preserve list, internal compiler) must "
     "return a circuit on the same qubits with the same unitary (dense simulation), no more gates, leaving the input untouched. "
@@ -55,7 +55,9 @@ def wide_classical(draw):
 
 
 def strategy(tier):
-    return st.one_of(*([gen_circ.mixed_circuit(1, 5, max_segments=4, run_max=8, identity=True)] * 5 + [wide_classical()]))
+    small = gen_circ.mixed_circuit(1, 5, max_segments=4, run_max=8, identity=True)
+    wide = wide_classical()
+    return st.integers(0, 2).flatmap(lambda k: wide if k == 0 else small)  # (one_of de-duplicates repeated alternatives)
 
 
 def judge(case):
